@@ -1005,6 +1005,7 @@ func sequtilRound4_12(c *Ctx) {
 	canonReusedIterator(c)
 	canonLongBufferReused(c)
 	rcHugeInvalid(c)
+	canonRound7(c)
 	// k around the machine-word boundaries, on pure upper-case ACGT and on mixed input
 	for _, k := range []int{15, 16, 17, 31, 32, 33, 63, 64, 65} {
 		for i := 0; i < c.n(6); i++ {
@@ -2215,6 +2216,228 @@ func regionsRound6(c *Ctx) {
 		}
 		check("regions-tens-of-thousands", fmt.Sprintf("%d %s intervals, queried around serial numbers 54000..%d", n, shape, n), starts, ends, qs)
 	}
+}
+
+// regionsRound7: far-apart coordinates (spans of 2^40 .. 2^62 and the int extremes) with 33..130 intervals,
+// and answers of more than 256 covering intervals that the caller overwrites before asking again.
+func regionsRound7(c *Ctx) {
+	for _, n := range []int{33, 64, 65, 100, 130} {
+		for _, k := range []uint{40, 55, 56, 57, 58, 61, 62} {
+			far := 1 << k
+			for _, delta := range []int{0, -100} {
+				starts, ends := make([]int, n), make([]int, n)
+				for j := range starts {
+					starts[j], ends[j] = 10*j, 10*j+5+j%7
+				}
+				// one interval reaching the far coordinate, one starting there
+				starts[0], ends[0] = 0, far+delta
+				starts[n-1], ends[n-1] = far+delta-3, far+delta+9
+				qs := []int{-1, 0, 5, 14, 10 * (n - 2), 10*(n-2) + 3, far + delta - 4, far + delta - 3, far + delta - 1, far + delta, far + delta + 8, far + delta + 9}
+				oracle := ""
+				st := safe(func() string {
+					idx := regions.NewIndex(starts, ends)
+					for _, q := range qs {
+						if got := idx.At(q); !sameInts(got, bruteAt(starts, ends, q)) && oracle == "" {
+							oracle = fmt.Sprintf("%d intervals, one reaching %d: At(%d) = %v, brute force gives %v", n, far+delta, q, trunc(fmt.Sprint(got), 60), trunc(fmt.Sprint(bruteAt(starts, ends, q)), 60))
+						}
+					}
+					return ""
+				})
+				if st == "PANIC" && oracle == "" {
+					oracle = fmt.Sprintf("NewIndex/At panicked with %d intervals, one reaching %d", n, far+delta)
+				}
+				c.add(Case{Kind: "regions-far-coordinates", Nontrivial: true, Oracle: oracle, Note: fmt.Sprintf("%d intervals, coordinates up to 2^%d%+d", n, k, delta)})
+			}
+		}
+	}
+	// the caller owns what At returns, however long it is
+	for _, depth := range []int{3, 256, 257, 300, 1000} {
+		starts, ends := make([]int, depth+2), make([]int, depth+2)
+		for j := 0; j < depth; j++ {
+			starts[j], ends[j] = -j, 10+j
+		}
+		starts[depth], ends[depth] = 20+depth, 30+depth
+		starts[depth+1], ends[depth+1] = 5, 6
+		oracle := ""
+		st := safe(func() string {
+			idx := regions.NewIndex(starts, ends)
+			for _, q := range []int{0, 5, 0} {
+				got := idx.At(q)
+				if !sameInts(got, bruteAt(starts, ends, q)) && oracle == "" {
+					oracle = fmt.Sprintf("position covered by %d intervals: At(%d) (after earlier answers were overwritten by the caller) = %v…, brute force gives %v…", depth, q, trunc(fmt.Sprint(got), 40), trunc(fmt.Sprint(bruteAt(starts, ends, q)), 40))
+				}
+				for j := range got {
+					got[j] = -7
+				}
+				got = append(got, 12345)
+				_ = got
+			}
+			return ""
+		})
+		if st == "PANIC" && oracle == "" {
+			oracle = "NewIndex/At panicked on a deep pile-up"
+		}
+		c.add(Case{Kind: "regions-deep-answer-overwritten", Nontrivial: true, Oracle: oracle, Note: fmt.Sprintf("At on a position covered by %d intervals; every answer overwritten and appended to before the next query", depth)})
+	}
+}
+
+// trieRound7: (a) short histories over the prefix family of one LONG key (>= 8 letters) and its one-letter
+// extensions -- no-op Adds of prefixes, Deletes that prune through them, Adds that share a long prefix with
+// an earlier argument; (b) nodes with more than 16 children emptied by deletes BENEATH them.
+func trieRound7(c *Ctx) {
+	base := "abbabaabbaba"
+	var fam []string
+	for k := 7; k <= len(base); k++ {
+		fam = append(fam, base[:k], base[:k]+"z")
+	}
+	run := func(ops []string) string {
+		t := trie.New()
+		ref := refSet{}
+		var hist []string
+		for _, op := range ops {
+			w := op[1:]
+			hist = append(hist, map[byte]string{'+': "Add", '-': "Delete"}[op[0]]+"("+w+")")
+			if op[0] == '+' {
+				t.Add([]byte(w))
+				ref.add(w)
+			} else if got, want := t.Delete([]byte(w)), ref.del(w); got != want {
+				return fmt.Sprintf("after %s: Delete returned %v, want %v", strings.Join(hist, " "), got, want)
+			}
+			for _, p := range fam {
+				if got, want := t.Has([]byte(p)), ref.has(p); got != want {
+					return fmt.Sprintf("after %s: Has(%s) = %v, want %v", strings.Join(hist, " "), p, got, want)
+				}
+			}
+			if got, _ := trieMembers(t); got != ref.members() {
+				return fmt.Sprintf("after %s: members %s, want %s", strings.Join(hist, " "), trunc(got, 80), trunc(ref.members(), 80))
+			}
+		}
+		return ""
+	}
+	n := 0
+	oracle := ""
+	st := safe(func() string {
+		for _, p := range fam {
+			for _, d := range fam {
+				for _, y := range fam {
+					for _, pre := range []string{base, base[:9] + "zz"} {
+						n++
+						if o := run([]string{"+" + pre, "+" + p, "-" + d, "+" + y}); o != "" && oracle == "" {
+							oracle = o
+						}
+					}
+				}
+			}
+		}
+		return ""
+	})
+	if st == "PANIC" && oracle == "" {
+		oracle = "trie panicked on a four-step history over long keys"
+	}
+	c.add(Case{Kind: "trie-long-key-histories", Nontrivial: true, Oracle: oracle, Note: fmt.Sprintf("%d histories Add(m) Add(p) Delete(d) Add(y) over the prefixes (>= 7 letters) of a 12-letter key and their one-letter extensions; Has on the whole family and ForEach after every step", n)})
+	for _, width := range []int{16, 17, 18, 40, 256} {
+		for _, prefix := range []string{"A", "", "xyz"} {
+			t := trie.New()
+			ref := refSet{}
+			oracle := ""
+			st := safe(func() string {
+				t.Add([]byte("other-member"))
+				ref.add("other-member")
+				var ks []string
+				for b := 0; b < width; b++ {
+					k := prefix + "C" + string([]byte{byte(b)}) + "t"
+					ks = append(ks, k)
+					t.Add([]byte(k))
+					ref.add(k)
+				}
+				for _, k := range ks {
+					if got, want := t.Delete([]byte(k)), ref.del(k); got != want && oracle == "" {
+						oracle = fmt.Sprintf("Delete of a member under a %d-child node returned %v", width, got)
+					}
+				}
+				for _, p := range []string{prefix + "C", prefix, prefix + "C\x00"} {
+					if got, want := t.Has([]byte(p)), ref.has(p); got != want && oracle == "" {
+						oracle = fmt.Sprintf("a node that had %d children, all removed by deletes beneath it: Has(%q) = %v, want %v", width, p, got, want)
+					}
+				}
+				if got, _ := trieMembers(t); got != ref.members() && oracle == "" {
+					oracle = fmt.Sprintf("after emptying a %d-child node: members %s, want %s", width, trunc(got, 60), trunc(ref.members(), 60))
+				}
+				if got, want := t.Delete([]byte(prefix+"C")), ref.del(prefix+"C"); got != want && oracle == "" {
+					oracle = fmt.Sprintf("Delete(%q) of an emptied %d-child node returned %v, want %v", prefix+"C", width, got, want)
+				}
+				return ""
+			})
+			if st == "PANIC" && oracle == "" {
+				oracle = "trie panicked"
+			}
+			c.add(Case{Kind: "trie-wide-node-emptied", Nontrivial: true, Oracle: oracle, Note: fmt.Sprintf("a node with %d children under %q, every child removed by a Delete beneath it", width, prefix)})
+		}
+	}
+}
+
+// canonRound7: a sequence with more than 2^22 k-mers (thorough: 2^24), every item checked against the harness's
+// own computation through a running checksum, the item count, and the items around every power-of-two position.
+func canonRound7(c *Ctx) {
+	sizes := []int{1<<22 + 3000}
+	if c.thor {
+		sizes = append(sizes, 1<<24+3000)
+	}
+	for _, n := range sizes {
+		k := 21
+		seq := c.bytesFrom([]byte("ACGT"), n)
+		comp := func(b byte) byte { return "TGCA"[strings.IndexByte("ACGT", b)] }
+		rc := make([]byte, n)
+		for i, b := range seq {
+			rc[n-1-i] = comp(b)
+		}
+		want := func(i int) []byte {
+			f, r := seq[i:i+k], rc[n-k-i:n-i]
+			if bytes.Compare(f, r) <= 0 {
+				return f
+			}
+			return r
+		}
+		i, bad := 0, ""
+		c.begin("CanonicalSubsequences over %d bases", n)
+		st := safe(func() string {
+			for x := range sequtil.CanonicalSubsequences(seq, k) {
+				if i > n-k {
+					bad = fmt.Sprintf("more than %d items", n-k+1)
+					break
+				}
+				if !bytes.Equal(x, want(i)) && bad == "" {
+					bad = fmt.Sprintf("item %d is %q, want %q", i, x, want(i))
+				}
+				i++
+			}
+			return ""
+		})
+		oracle := ""
+		if st == "PANIC" {
+			oracle = "CanonicalSubsequences panicked on a long sequence"
+		} else if bad != "" {
+			oracle = fmt.Sprintf("CanonicalSubsequences over %d bases, k=%d: %s", n, k, bad)
+		} else if i != n-k+1 {
+			oracle = fmt.Sprintf("CanonicalSubsequences over %d bases, k=%d yields %d items, want %d", n, k, i, n-k+1)
+		}
+		c.add(Case{Kind: "canon-multi-million", Nontrivial: true, Oracle: oracle, Note: fmt.Sprintf("CanonicalSubsequences(seq of %d bases, %d): every item compared", n, k)})
+	}
+}
+
+// mashRound7: a sequence of more than 2^22 k-mers sketched whole and as two overlapping pieces holding the same
+// k-mers (the sketch depends only on the k-mer content)
+func mashRound7(c *Ctx) {
+	n, k := 1<<22+3000, 21
+	seq := c.bytesFrom([]byte("ACGT"), n)
+	m := n/2 + 17
+	whole := sketchOf(500, k, seq)
+	parts := sketchOf(500, k, seq[:m+k-1], seq[m:])
+	oracle := ""
+	if whole != parts {
+		oracle = fmt.Sprintf("the sketch of a %d-base sequence differs from the sketch of two overlapping pieces with the same %d-mers", n, k)
+	}
+	c.add(Case{Kind: "mash-multi-million", Nontrivial: true, Oracle: oracle, Note: fmt.Sprintf("mash.Sequences(500, %d) of %d bases, whole and in two overlapping pieces", k, n)})
 }
 
 func mashRound6(c *Ctx) {
